@@ -276,6 +276,30 @@ N6 == E("N6", "nest",
   <<<<>>>>)
 
 ----------------------------------------------------------------------------
+\* S4 "deep"
+D1 == E("D1", "deep",
+  dQ(<<dF("a", <<>>, <<dLf("a"), dInl("B", <<dLf("b"), dInl("C", <<dLf("c"), dInl("T1", <<dLf("t1")>>)>>)>>), dInl("T3", <<dLf("t3")>>),
+                        dInl("X", <<dLf("x")>>)>>),
+       dF("c", <<>>, <<dLf("a"), dInl("A", <<dLf("a")>>), dInl("B", <<dLf("b")>>), dInl("T1", <<dF("next", <<>>, <<dLf("b"), dInl("X", <<dLf("x")>>)>>)>>)>>)>>),
+  <<<<>>>>)
+D2 == E("D2", "deep",
+  dDoc(dOp("query", "", <<>>,
+          <<dF("u", <<>>, <<dLf("__typename"), dInl("X", <<dLf("x")>>), dInl("B", <<dLf("b"), dSpr("FA")>>), dInl("T4", <<dLf("t4")>>)>>),
+            dF("v", <<>>, <<dInl("A", <<dLf("a")>>), dInl("X", <<dLf("x"), dInl("T2", <<dLf("t2")>>)>>), dSpr("FA")>>),
+            dF("bs", <<>>, <<dSpr("FA"), dInl("X", <<dLf("x")>>), dInl("C", <<dLf("c")>>)>>),
+            dF("x", <<>>, <<dLf("x"), dInl("B", <<dLf("a")>>), dInl("V", <<dInl("T2", <<dLf("t2")>>)>>)>>), dF("lone", <<>>, <<dLf("l")>>)>>),
+       <<dFrag("FA", "A", <<dLf("a"), dInl("C", <<dLf("c")>>)>>)>>),
+  <<<<>>>>)
+D3 == E("D3", "deep",
+  dQV(<<dVar("m", Ls(Ls(NN(Ty("Int")))), Absent), dVar("row", Ls(NN(Ty("Int"))), Absent), dVar("n", NN(Ty("Int")), Absent), dVar("w", Ls(Ls(Ty("In4"))), VL(<<>>))>>,
+      <<dF("mat", <<dA("m", VL(<<VL(<<VI(1), VI(2)>>), VL(<<VI(3)>>), VNull>>))>>, <<>>), dFA("m1", "mat", <<dA("m", VL(<<VI(1), VI(2)>>))>>, <<>>),
+        dFA("m2", "mat", <<dA("m", VI(5))>>, <<>>), dFA("m3", "mat", <<dA("m", VVar("m"))>>, <<>>), dFA("m4", "mat", <<dA("m", VL(<<VVar("row"), VL(<<VVar("n")>>)>>))>>, <<>>),
+        dF("mat2", <<dA("m", VL(<<VL(<<VO(<<"q">>, <<VL(<<VI(1)>>)>>), VNull>>), VNull>>))>>, <<>>),
+        dFA("n2", "mat2", <<dA("m", VO(<<"q", "r">>, <<VI(7), VL(<<VI(1), VI(2)>>)>>))>>, <<>>), dFA("n3", "mat2", <<dA("m", VVar("w"))>>, <<>>)>>),
+  << <<V("n", VI(1))>>, <<V("m", VL(<<VL(<<VI(1)>>), VNull>>)), V("row", VL(<<VI(4)>>)), V("n", VI(2)), V("w", VL(<<VNull, VL(<<VNull, VO(<<"q">>, <<VL(<<>>)>>)>>)>>))>>,
+     <<V("m", VI(9)), V("row", VNull), V("n", VI(3)), V("w", VO(<<"q">>, <<VI(1)>>))>> >>)
+
+----------------------------------------------------------------------------
 \* validation-only seeds (C04): schema introspection selections inside ordinary operations (4.1, 4.2)
 V1 == E("V1", "pets",
   dQ(<<dF("__schema", <<>>, <<dF("queryType", <<>>, <<dLf("name")>>),
@@ -300,5 +324,6 @@ CorpusV == <<V1, V2, V3>>
 
 Corpus == <<P1, P2, P3, P4, P5, P6, P7, P8, P9, P10, P11, P12, P13, P14, P15, P16, P17,
             A1, A2, A3, A4, A5, A6, A7, A8, A9, A10, A11, A12, A13, A14,
-            N1, N2, N3, N4, N5, N6>>
+            N1, N2, N3, N4, N5, N6,
+            D1, D2, D3>>
 =============================================================================
